@@ -384,8 +384,10 @@ def oracle(case, impl, spec):
         return None
     if ';BAD' in spec:
         return None                      # not a well-formed history (use after delete, …)
-    nev = len([t for t in model_ops(case)[1] if t[0] != 'u'])
+    evtoks = [t for t in model_ops(case)[1] if t[0] != 'u']
+    nev = len(evtoks)
     si, ss = steps(impl), spec.split(' ;;')[0].split(' | ') if nev else []
+    owned, running, prev = {}, True, {}
     for n, st in enumerate(si):
         if n >= len(ss):
             return 'step %d: %s' % (n, st[:80])
@@ -397,9 +399,35 @@ def oracle(case, impl, spec):
                 return 'step %d: object %d finalised %d times' % (n, o, fi)
             if fr != fi:
                 return 'step %d: object %d finalised %d times but released %d times' % (n, o, fi, fr)
-        for o in [int(x) for x in ss[n].split(',') if x]:
+        must_s, _, kept_s = ss[n].partition('/')
+        for o in [int(x) for x in must_s.split(',') if x]:
             if led.get(o, (0, 0))[0] != 1:
                 return 'step %d: object %d must have been finalised by now (deleted, owned by a deleted Box, or teardown) but its destructor ran %d times' % (n, o, led.get(o, (0, 0))[0])
+        # roots belong to the program: only del_root (or the Box they were given to) may finalise them —
+        # no collection and no teardown (thread exit, program exit)
+        for o in [int(x) for x in kept_s.split(',') if x]:
+            if led.get(o, (0, 0))[0] != 0:
+                return ('step %d (%s): root object %d was finalised by the collector — it was allocated with new_root, never passed to '
+                        'del_root and never given to a Box' % (n, evtoks[n], o))
+        # through an owning Box: when the destructor of a Box has run while the collector is running, the
+        # object the Box owned has been finalised too (Box_Del issues del on it)
+        tok = evtoks[n] if n < len(evtoks) else ''
+        if running:
+            for b, o in owned.items():
+                if o is not None and prev.get(b, (0, 0))[0] == 0 and led.get(b, (0, 0))[0] == 1 and led.get(o, (0, 0))[0] != 1:
+                    return ('step %d (%s): the destructor of Box %d ran with the collector running, but the object %d it owned was not '
+                            'finalised (its destructor ran %d times)' % (n, tok, b, o, led.get(o, (0, 0))[0]))
+        if tok[:1] == 'l':
+            b, _, o = tok[1:].split('@')[0].partition(',')
+            owned[int(b)] = None if o == '-' else int(o)
+        elif tok[:1] == 's':
+            running = False
+        elif tok[:1] == 'S':
+            running = True
+        for b in list(owned):
+            if led.get(b, (0, 0))[0] >= 1:
+                owned[b] = None          # Box_Del cleared its pointer
+        prev = led
     if len(si) != len(ss):
         return 'implementation transcript has %d steps, the history %d' % (len(si), len(ss))
     # objects allocated by destructors are managed objects like any other: whatever exists before
@@ -448,7 +476,7 @@ def gen_exit_objs(rng):
     n = rng.randrange(1, 9)
     toks, used_f = [], False
     for i in range(1, n + 1):
-        k = rng.choice('ppoocrgf')
+        k = rng.choice('ppoocrghf')
         if k == 'f':
             if used_f:
                 k = 'p'
@@ -476,6 +504,8 @@ def exit_model_case(route, objs):
             new('N', ident)
         elif k == 'f':
             new('n', 900)
+        elif k == 'h':
+            new('N', ident); new('b', ident + 500); toks.append('l%d,%d' % (ident + 500, ident))
         elif k in 'ogc':
             owner = ident + {'o': 600, 'g': 500, 'c': 700}[k]
             if k == 'c' and not have_arr:
@@ -508,13 +538,26 @@ def check_exit_case(ctx, exe, drv, route, objs):
         return 'the history did not reach its termination route', rec
     if f[3] != 'B0':
         return 'a destructor ran on a block that is not a live probe (%s)' % f[3], rec
-    must = {int(x) for x in spec.split(' | ')[-1].split(';')[0].split(',') if x}
+    must_s, _, kept_s = spec.split(' | ')[-1].split(';')[0].partition('/')
+    must = {int(x) for x in must_s.split(',') if x}
+    kept = {int(x) for x in kept_s.split(',') if x}
     for o, n in sorted(led.items()):
         if n > 1:
             return 'object %d finalised %d times at program exit (%s)' % (o, n, ROUTES[route]), rec
         if o in must and n != 1:
             return ('object %d is a managed object that is alive when the program ends through "%s": it must be finalised by the '
                     'teardown of the collector, but its destructor ran %d times' % (o, ROUTES[route], n)), rec
+    for o in sorted(kept):
+        if led.get(o, 0) != 0:
+            return ('root object %d was finalised by the collector when the program ended through "%s": it was allocated with '
+                    'new_root, never passed to del_root and never given to a Box' % (o, ROUTES[route])), rec
+    # through an owning Box: owners that were finalised at teardown have deleted what they owned
+    for t in objs.split():
+        if t[0] in 'gh':
+            o, b = int(t[1:]), int(t[1:]) + 500
+            if led.get(b, 0) == 1 and led.get(o, 0) != 1:
+                return ('the destructor of Box %d ran at program exit (%s) but the %s %d it owned was not finalised (its destructor ran %d times)'
+                        % (b, ROUTES[route], 'root' if t[0] == 'h' else 'object', o, led.get(o, 0))), rec
     if 'f' in objs.split() and f[1] != 'F1':
         return 'the managed File was closed %s times at program exit (%s)' % (f[1][1:], ROUTES[route]), rec
     a, b = f[2][1:].split('/')
@@ -535,7 +578,7 @@ def run_exit_routes(ctx, drv, volume, only=None):
     # the routes through Exception_Error after a signal first (they are the ones a changed
     # Exception_Error / Exception_Signal breaks), then the others
     order = list(SIGNAL_ROUTES) + [r for r in ROUTES if r not in SIGNAL_ROUTES]
-    cases = [(r, 'p1') for r in order] + [(r, 'p1 o2 c3 c4 r5 f g6 p7') for r in order]
+    cases = [(r, 'p1') for r in order] + [(r, 'p1 o2 c3 c4 r5 f g6 p7 h8') for r in order]
     cases += [(ctx.rng.choice(list(ROUTES)), gen_exit_objs(ctx.rng)) for _ in range(volume)]
     if only:
         cases = [only]
